@@ -1,3 +1,3 @@
 INIT Init
 NEXT Next
-INVARIANTS C05_NoHang C05_Once C05_SameReply C05_NoForeignReply K05_Attributed C05_Lifetime C05_LocksReleased
+INVARIANTS C05_NoHang C05_Once C05_SameReply C05_NoForeignReply K05_Attributed C05_Lifetime C05_FreshAgain C05_LocksReleased
